@@ -141,6 +141,61 @@ pub fn flags_restored_untracked_first<S: Source>(s: &mut S) {
     forget((u, a, r));
 }
 
+/// an array used untracked in one pass and tracked in a later one: the later pass must store
+/// its gradient (tracking is decided when the array is used, with no residue of the earlier use)
+pub fn tracked_later<S: Source>(s: &mut S) {
+    let a = mk(s, &[2], Dom::D4).tracked();
+    let b = mk(s, &[2], Dom::D4);
+    let r1 = &a * &b;
+    r1.backward(None);
+    chk!(b.gradient().is_none(), "[c09:untracked-operand-gradient] an untracked operand received a gradient");
+    b.start_tracking();
+    let r2 = &a * &b;
+    r2.backward(None);
+    let g = b.gradient();
+    chk!(g.is_some(), "[c09:tracked-later] an array tracked when it was used received no gradient");
+    if let Some(g) = g.as_ref() {
+        chk!(vals_eq(g.values(), a.values()), "[grad:value] gradient element differs from the seed-weighted sum of partial derivatives");
+    }
+    // the same array used tracked and, through a detached clone, untracked inside one graph
+    let w = mk(s, &[2], Dom::D4).tracked();
+    let frozen = w.clone().untracked();
+    let r3 = &w * &frozen;
+    r3.backward(None);
+    let gw = w.gradient();
+    chk!(gw.is_some(), "[c09:tracked-later] an array tracked when it was used received no gradient");
+    if let Some(gw) = gw.as_ref() {
+        chk!(vals_eq(gw.values(), w.values()), "[grad:value] gradient element differs from the seed-weighted sum of partial derivatives");
+    }
+    witness();
+    std::mem::forget(g);
+    std::mem::forget(gw);
+    forget((a, b, r1, r2, w, frozen, r3));
+}
+
+/// the gradients a pass stores are plain arrays: untracked, and (hook) carrying no graph
+pub fn gradient_plain<P: Program, S: Source>(s: &mut S, p: &P, leaves: &[Leaf]) {
+    let b = build(s, leaves);
+    let nodes = p.run::<Array>(&b.arrays);
+    let root = &nodes[nodes.len() - 1];
+    let (arg, _) = crate::cases::grad::draw_seed(s, root, crate::cases::grad::Seed::Explicit(Dom::D4));
+    root.backward(arg);
+    for (i, l) in leaves.iter().enumerate() {
+        if !l.tracked {
+            continue;
+        }
+        let g = b.arrays[i].gradient();
+        chk!(g.is_some(), "[grad:missing] a tracked leaf received no gradient");
+        if let Some(g) = g.as_ref() {
+            chk!(!is_tracked(g), "[c09:gradient-tracked] a stored gradient is itself a tracked array");
+            #[cfg(any(kani, corgi_verif))]
+            chk!(g.verif_children().is_empty(), "[c09:gradient-graph] a stored gradient carries a graph");
+        }
+    }
+    witness();
+    forget((b.arrays, nodes));
+}
+
 /// setting the flag on a clone never changes the original (and vice versa)
 pub fn clone_flags<S: Source>(s: &mut S) {
     let a = mk(s, &[2], Dom::D4).tracked();
